@@ -1398,11 +1398,6 @@ class World(object):
                 self.report("C13", "delay_carried", "retry of %s offered with delay %r, configured %r" % (x.key(), got, exp))
             return
         d = spec_t.get("delay")
-        if self.kf_items_loop and (got or None) != (d if isinstance(d, int) else None):
-            self.report("C13", "delay_carried", "%s (with-items, revisited in a loop after a failed visit) offered with "
-                        "delay %r of the previous visit's retry" % (x.key(), got), tags=["failed_with_items_revisited"],
-                        kf=self.kf_items_loop)
-            return
         if d is None:
             exp = None
         else:
@@ -1411,6 +1406,11 @@ class World(object):
             except lang.EvalFault:
                 return
         if (got or None) != (exp or None):
+            if self.kf_items_loop:
+                self.report("C13", "delay_carried", "%s (with-items, revisited in a loop after a failed visit) offered "
+                            "with delay %r of the previous visit's retry, definition says %r" % (x.key(), got, exp),
+                            tags=["failed_with_items_revisited"], kf=self.kf_items_loop)
+                return
             self.report("C13", "delay_carried", "%s offered with delay %r, definition says %r" % (x.key(), got, exp))
 
     def check_output(self):
